@@ -6,6 +6,9 @@ use std::pin::Pin;
 use std::str::FromStr;
 #[cfg(feature = "gssapi")]
 use std::sync::RwLock;
+#[cfg(ldap3_verif_shuttle)]
+use shuttle::sync::{Arc, Mutex};
+#[cfg(not(ldap3_verif_shuttle))]
 use std::sync::{Arc, Mutex};
 use std::task::{Context, Poll};
 use std::time::Duration;
